@@ -68,6 +68,7 @@ ENTRIES = {
 }
 VCS_FIELDS = ['Git', 'Bzr', 'Hg', 'Svn', 'Cvs', 'Browser', 'Unknown']
 # per-entry free-text bound (quick, thorough); entries already exhausted by C01/C06/C09 keep a small bound here
+RELCUT_TEXTS = ['a:any (>= 1:2-3) [b !c] <d !e> <f> | g, h (<< 4)', '${a:b}, c [d] | e']
 FREE = {'deb822::': (3, 4), 'control::relations::R': (2, 3), 'control::relations::E': (2, 3)}
 
 
@@ -111,6 +112,7 @@ class C02(Harness):
     bounds = {'quick': {'free_text_max_chars': 3, 'doc_value_max_chars': 1}, 'thorough': {'free_text_max_chars': 4, 'doc_value_max_chars': 2}}
     assumptions = ['free text: every string of 0..N Unicode scalar values per entry point (N per tier and entry point, in coverage.per_case); for the field codecs additionally every length (<= 12) that a string constant reachable in their MIR has, fully symbolic',
                    'VCS fields: url, separator, "[" subpath "]", separator, "-b", separator, branch with every separator and component character symbolic',
+                   'relationship fields (all seven relation readers): two concrete fields carrying every optional part (qualifier, epoch version, architecture list with negation, two profile groups, alternative, second entry, substitution variable), cut off at every position and followed by nothing / a blank / a newline / a closing bracket / a letter (thorough: any one character)',
                    'typed documents: a base document accepted by the real reader (mandatory fields found by native probing) in which one field value is replaced by symbolic text',
                    'std::io::Read is an environment stub delivering the text; from_file*, pyo3 and OOM/stack depth are outside the claim',
                    'wall-clock complexity is not decided; every path is bounded by a fuel of basic blocks and hangs are confirmed natively under a watchdog']
@@ -139,6 +141,10 @@ class C02(Harness):
         for entry in ('control::vcs::ParsedVcs::from_str', 'control::vcs::Vcs::from_field'):
             for nm in ((['Git', 'Cvs'] if tier == 'quick' else ['Git', 'Bzr', 'Cvs']) if entry.endswith('from_field') else [None]):
                 cs.append({'entry': entry, 'fam': 'vcs', 'n': 1 if tier == 'quick' else 2, 'name': nm, 'order': 3})
+        # relationship fields cut off at every position, optionally followed by a blank / newline / stray character (error recovery paths)
+        for entry in ('control::relations::Relations::from_str', 'control::relations::Relations::parse_relaxed_false', 'control::relations::Relations::parse_relaxed_true',
+                      'control::relations::Entry::from_str', 'control::relations::Relation::from_str', 'control::lossy::Relations::from_str', 'control::lossy::Relation::from_str'):
+            cs.append({'entry': entry, 'fam': 'relcut', 'n': 1 if tier == 'quick' else 2, 'name': None, 'order': 3, 'substvars': entry.endswith('_true')})
         # typed documents
         try:
             rp = replay_mod.Replay(replay_mod.build())
@@ -169,6 +175,16 @@ class C02(Harness):
             if shape in (0, 2): chars += [e.fresh_char('sep'), 91] + part('p', case['n']) + [93]
             if shape in (1, 2): chars += [e.fresh_char('sep'), 45, 98, e.fresh_char('sep')] + part('b', case['n'])
             if e.choose('tail', 2): chars += [e.fresh_char('t')]
+            s = Str(chars)
+        elif case['fam'] == 'relcut':
+            text = [ord(c) for c in RELCUT_TEXTS[e.choose('text', len(RELCUT_TEXTS))]]
+            cut = e.choose('cut', len(text) + 1)
+            chars = list(text[:cut])
+            if case['n'] > 1:
+                if e.choose('tail', 2): chars += [e.fresh_char('t')]       # thorough: any one character
+            else:
+                t = e.choose('tail', 5)                                    # quick: nothing / blank / newline / closing bracket / letter
+                if t: chars += [[32], [10], [41], [97]][t - 1]
             s = Str(chars)
         else:
             # base document with one field value symbolic (0..n chars, no line terminators)
